@@ -238,6 +238,9 @@ func cutoffExplains(g *ref.Graph, doc *ref.Value) bool {
 		if depth > 60 || v == nil {
 			return
 		}
+		if v.Kind == ref.KNull {
+			return // (null under nullable: nothing below it)
+		}
 		if n.Kind == ref.SRef {
 			// the alternative whose root kind fits the value
 			for _, nm := range n.Names {
@@ -268,11 +271,17 @@ func cutoffExplains(g *ref.Graph, doc *ref.Value) bool {
 					return
 				}
 			}
+			other++ // no alternative of the list is of the value's kind: not what the builder writes
 			return
 		}
 		switch n.Kind {
+		case ref.SLit:
+			if v.Kind == ref.KObject || v.Kind == ref.KArray {
+				other++
+			}
 		case ref.SObj:
 			if v.Kind != ref.KObject {
+				other++
 				return
 			}
 			all := props(n, keysOpt, map[string]bool{})
@@ -320,6 +329,7 @@ func cutoffExplains(g *ref.Graph, doc *ref.Value) bool {
 			}
 		case ref.SArr:
 			if v.Kind != ref.KArray {
+				other++
 				return
 			}
 			minItems := 0
